@@ -743,16 +743,421 @@ Proof.
       { apply memN_false. intros Hin. destruct (i_built _ _ _ HI _ Hin) as [b' Hb']. congruence. }
       rewrite Hnb.
       set (st1 := mark_verified h st).
-      assert (Ho1 : forall x, oiv (set_verified (mput b h (s_verified st1)) st1) x =
-                              if h =? x then Some (b, true) else oiv st x).
-      { intros x. change (oiv st1 x = if h =? x then Some (b, true) else oiv st x).
+      assert (Ho1 : forall a x, oiv (set_verified a st1) x = if h =? x then Some (b, true) else oiv st x).
+      { intros a x. change (oiv st1 x = if h =? x then Some (b, true) else oiv st x).
         unfold st1. rewrite oiv_mark_verified. destruct (h =? x) eqn:E; [|reflexivity].
         apply N.eqb_eq in E. subst x. rewrite Ho. reflexivity. }
-      assert (Hi1 : forall x, o_id (obj_of (set_verified (mput b h (s_verified st1)) st1) x) = o_id (obj_of st x)).
-      { intros x. exact (oid_mark_verified st h x). }
+      assert (Hi1 : forall a x, o_id (obj_of (set_verified a st1) x) = o_id (obj_of st x)).
+      { intros a x. exact (oid_mark_verified st h x). }
       assert (Hne : forall x y, oiv st x = Some (y, true) -> (h =? x) = false).
       { intros x y Hx. destruct (h =? x) eqn:E; [|reflexivity]. apply N.eqb_eq in E. subst x. congruence. }
       constructor; try (old HI);
         cbn [e_proc e_rej e_chain e_acc e_built e_pending e_blocks e_hid e_last e_ready e_started e_ver set_verified s_verified s_last s_acc_id s_parsed s_queue].
-      (*SHOW*)
-Abort.
+      * reflexivity.
+      * rewrite (i_proc _ _ _ HI). reflexivity.
+      * intros h0 b0 H0. rewrite Ho1. destruct (h =? h0) eqn:E.
+        -- apply N.eqb_eq in E. subst h0. rewrite Eh in H0. injection H0 as <-. eauto.
+        -- exact (i_hid _ _ _ HI _ _ H0).
+      * intros b0 h0 H0. rewrite lookup_mput in H0. rewrite Ho1. destruct (b0 =? b) eqn:E.
+        -- apply N.eqb_eq in E. injection H0 as <-. subst b0. rewrite N.eqb_refl. repeat split; assumption.
+        -- destruct (i_procobj _ _ _ HI _ _ H0) as (A & B & C & D). rewrite (Hne _ _ A). repeat split; assumption.
+      * destruct (i_last _ _ _ HI) as (A & B & C). change (s_last st1) with (s_last st). change (s_acc_id st1) with (s_acc_id st).
+        rewrite Ho1, (Hne _ _ A). repeat split; assumption.
+      * intros b0 h0 H0. destruct (i_accid _ _ _ HI _ _ H0) as [[v Hv'] B]. split; [|exact B].
+        rewrite Ho1. destruct (h =? h0) eqn:E; [|eauto]. apply N.eqb_eq in E. subst h0.
+        rewrite Ho in Hv'. injection Hv' as <- _. eauto.
+      * intros b0 h0 H0. change (h0 < lenN (s_objs (mark_verified h st))). rewrite lenN_mark_verified. exact (i_parsed _ _ _ HI _ _ H0).
+      * rewrite accepts_app. cbn [accepts flat_map app]. rewrite app_nil_r, (i_queue _ _ _ HI). f_equal.
+        apply map_ext. intros x. symmetry. apply Hi1.
+      * intros h0 H0. rewrite Hi1. exact (i_queue_chain _ _ _ HI _ H0).
+      * erewrite chain_from_blocks; [exact (i_acc_chain _ _ _ HI) | reflexivity].
+      * rewrite naccepted_app, accepts_app. cbn. rewrite !app_nil_r. exact (i_nacc _ _ _ HI).
+      * rewrite nrejected_app. cbn. rewrite app_nil_r. exact (i_nrej _ _ _ HI).
+      * rewrite nverified_app. cbn [nverified flat_map app]. unfold verified_parsed at 1. cbn [e_ver].
+        rewrite verified_parsed_app. cbn [snd fst]. rewrite (i_nver _ _ _ HI). reflexivity.
+      * rewrite npreaccepted_app, (i_npre1 _ _ _ HI). reflexivity.
+      * rewrite nprerejected_app, (i_npre2 _ _ _ HI). reflexivity.
+      * rewrite vp_app. erewrite vp_blocks; [rewrite (i_vp _ _ _ HI)|reflexivity].
+        cbn [verify_parents_ok andb]. fold_es es. rewrite Hpout, N.eqb_refl, Einv. reflexivity.
+      * intros h0 b0 H0. rewrite Ho1 in H0. rewrite outs_after_app. destruct (h =? h0) eqn:E.
+        -- injection H0 as <-. cbn. left. reflexivity.
+        -- apply outs_after_mono. exact (i_outs _ _ _ HI _ _ H0).
+      * apply Forall_app. split; [exact (i_trlt _ _ _ HI) | repeat constructor; exact G4].
+      * intros h0 b0 H0. rewrite Ho1 in H0. destruct (h =? h0) eqn:E.
+        -- injection H0 as <-. right. left. rewrite hasK_mput, N.eqb_refl. reflexivity.
+        -- destruct (i_unv _ _ _ HI _ _ H0) as [A|[A|[A|A]]]; auto.
+           right. left. rewrite hasK_mput, A. apply orb_true_r.
+      * intros h0 H0. destruct (i_built _ _ _ HI _ H0) as [b0 Hb0]. exists b0. rewrite Ho1, (Hne _ _ Hb0). exact Hb0.
+Qed.
+
+
+(* ------------------------------------------------------------------ small invariant-preserving moves *)
+Definition es_learn (h b : N) (es : estate) : estate :=
+  mkE (e_blocks es) (mput h b (e_hid es)) (e_built es) (e_proc es) (e_last es) (e_chain es) (e_acc es)
+      (e_rej es) (e_ver es) (e_pending es) (e_ready es) (e_started es) (e_sync es) (e_pref es).
+
+Lemma inv_learn st es tr h b : Inv st es tr -> (exists v, oiv st h = Some (b, v)) -> Inv st (es_learn h b es) tr.
+Proof.
+  intros HI Hh. unfold es_learn.
+  constructor; try (old HI); cbn [e_hid e_acc].
+  - intros h0 b0 H0. rewrite lookup_mput in H0. destruct (h0 =? h) eqn:E.
+    + apply N.eqb_eq in E. subst h0. injection H0 as <-. exact Hh.
+    + exact (i_hid _ _ _ HI _ _ H0).
+  - erewrite chain_from_blocks; [exact (i_acc_chain _ _ _ HI) | reflexivity].
+  - erewrite vp_blocks; [exact (i_vp _ _ _ HI) | reflexivity].
+Qed.
+
+Lemma learn_eq r es :
+  learn r es = match r with RBlk (BH h) b _ _ => es_learn h b es | _ => es end.
+Proof. destruct r as [| |[h|b'] b v a| |]; reflexivity. Qed.
+
+Lemma inv_set_parsed st es tr m : Inv st es tr ->
+  (forall b h, In (b, h) m -> h < lenN (s_objs st)) -> Inv (set_parsed m st) es tr.
+Proof.
+  intros HI Hm. constructor; try (old HI).
+  - exact Hm.
+  - exact (i_acc_chain _ _ _ HI).
+  - exact (i_vp _ _ _ HI).
+Qed.
+
+Lemma inv_event st es tr e : Inv st es tr ->
+  match e with EParse _ => True | _ => False end -> Inv st es (tr ++ [e]).
+Proof.
+  intros HI He. destruct e; try contradiction.
+  constructor; try (old HI).
+  - rewrite accepts_app. cbn. rewrite app_nil_r. exact (i_queue _ _ _ HI).
+  - exact (i_acc_chain _ _ _ HI).
+  - rewrite naccepted_app, accepts_app. cbn. rewrite !app_nil_r. exact (i_nacc _ _ _ HI).
+  - rewrite nrejected_app. cbn. rewrite app_nil_r. exact (i_nrej _ _ _ HI).
+  - rewrite nverified_app. cbn. rewrite app_nil_r. exact (i_nver _ _ _ HI).
+  - rewrite npreaccepted_app, (i_npre1 _ _ _ HI). reflexivity.
+  - rewrite nprerejected_app, (i_npre2 _ _ _ HI). reflexivity.
+  - rewrite vp_app, (i_vp _ _ _ HI). reflexivity.
+  - intros h0 b0 H0. rewrite outs_after_app. apply outs_after_mono. exact (i_outs _ _ _ HI _ _ H0).
+  - apply Forall_app. split; [exact (i_trlt _ _ _ HI) | repeat constructor].
+Qed.
+
+Lemma oiv_alloc_old st o x z : oiv st x = Some z -> oiv (set_objs (s_objs st ++ [o]) st) x = Some z.
+Proof.
+  intros H. pose proof (oiv_lt _ _ _ H) as Hlt. unfold oiv in *. cbn [s_objs set_objs].
+  rewrite nthN_app_l by exact Hlt. exact H.
+Qed.
+
+Lemma oiv_alloc_inv st o x z : oiv (set_objs (s_objs st ++ [o]) st) x = Some z ->
+  oiv st x = Some z \/ (x = lenN (s_objs st) /\ z = (o_id o, o_verified o)).
+Proof.
+  intros H. pose proof (oiv_lt _ _ _ H) as Hlt. cbn [s_objs set_objs] in Hlt. rewrite lenN_app in Hlt.
+  destruct (N.lt_ge_cases x (lenN (s_objs st))) as [Hx|Hx].
+  - left. unfold oiv in *. cbn [s_objs set_objs] in H. rewrite nthN_app_l in H by exact Hx. exact H.
+  - right. assert (x = lenN (s_objs st)) as -> by (unfold lenN in *; cbn [length] in *; lia).
+    split; [reflexivity|]. unfold oiv in H. cbn [s_objs set_objs] in H. rewrite nthN_app_len in H.
+    cbn [option_map] in H. congruence.
+Qed.
+
+Lemma obj_of_alloc_old st o x : x < lenN (s_objs st) -> obj_of (set_objs (s_objs st ++ [o]) st) x = obj_of st x.
+Proof. intros H. unfold obj_of. cbn [s_objs set_objs]. rewrite nthN_app_l by exact H. reflexivity. Qed.
+
+Lemma obj_of_nonzero_lt st x : o_id (obj_of st x) <> 0 -> x < lenN (s_objs st).
+Proof.
+  unfold obj_of. destruct (nthN (s_objs st) x) eqn:E.
+  - intros _. eapply nthN_some_lt; eauto.
+  - cbn. congruence.
+Qed.
+
+Lemma inv_alloc st es tr b : Inv st es tr -> Inv (set_objs (s_objs st ++ [mkO b false false]) st) es tr.
+Proof.
+  intros HI. set (o := mkO b false false).
+  assert (Hq : forall x, In x (s_queue st) -> obj_of (set_objs (s_objs st ++ [o]) st) x = obj_of st x).
+  { intros x Hx. apply obj_of_alloc_old. apply obj_of_nonzero_lt. apply (i_queue_chain _ _ _ HI _ Hx). }
+  constructor; try (old HI); cbn [set_objs s_last s_acc_id s_parsed s_queue s_objs].
+  - intros h0 b0 H0. destruct (i_hid _ _ _ HI _ _ H0) as [v Hv]. exists v. apply oiv_alloc_old. exact Hv.
+  - intros b0 h0 H0. destruct (i_procobj _ _ _ HI _ _ H0) as (A & B & C & D). repeat split; auto. apply oiv_alloc_old. exact A.
+  - destruct (i_last _ _ _ HI) as (A & B & C). repeat split; auto. apply (oiv_alloc_old st o _ _ A).
+  - intros b0 h0 H0. destruct (i_accid _ _ _ HI _ _ H0) as [[v Hv] B]. split; [exists v; apply oiv_alloc_old; exact Hv | exact B].
+  - intros b0 h0 H0. rewrite lenN_app. pose proof (i_parsed _ _ _ HI _ _ H0). lia.
+  - rewrite (i_queue _ _ _ HI). f_equal. apply map_ext_in. intros x Hx. rewrite (Hq _ Hx). reflexivity.
+  - intros h0 H0. rewrite (Hq _ H0). exact (i_queue_chain _ _ _ HI _ H0).
+  - exact (i_acc_chain _ _ _ HI).
+  - exact (i_vp _ _ _ HI).
+  - intros h0 b0 H0. apply oiv_alloc_inv in H0. destruct H0 as [H0|[_ H0]]; [exact (i_outs _ _ _ HI _ _ H0) | discriminate].
+  - intros h0 b0 H0. apply oiv_alloc_inv in H0. destruct H0 as [H0|[_ H0]]; [exact (i_unv _ _ _ HI _ _ H0) | discriminate].
+  - intros h0 H0. destruct (i_built _ _ _ HI _ H0) as [b0 Hb0]. exists b0. apply oiv_alloc_old. exact Hb0.
+Qed.
+
+Lemma In_remove_key {V} k (m : list (N * V)) x : In x (remove_key k m) -> In x m.
+Proof. unfold remove_key. intros H. apply filter_In in H. tauto. Qed.
+
+Lemma get_block_BH st es tr b h : Inv st es tr -> get_block st b = Some (BH h) -> exists b' v, oiv st h = Some (b', v).
+Proof.
+  intros HI. unfold get_block. rewrite (i_proc _ _ _ HI).
+  destruct (lookup b (e_proc es)) as [h1|] eqn:E1.
+  - intros [= <-]. destruct (i_procobj _ _ _ HI _ _ E1) as (A & _). eauto.
+  - destruct (lookup b (s_acc_id st)) as [h1|] eqn:E2.
+    + intros [= <-]. apply lookup_In in E2. destruct (i_accid _ _ _ HI _ _ E2) as [[v Hv] _]. eauto.
+    + destruct (disk_get st b); discriminate.
+Qed.
+
+Lemma inv_do_parse c st es tr b st' r evs :
+  Inv st es tr -> do_parse c st b = (st', r, evs) -> Inv st' (learn r es) (tr ++ evs).
+Proof.
+  intros HI HS. unfold do_parse in HS.
+  destruct (get_block st b) as [rf|] eqn:Eg.
+  - injection HS as <- <- <-. rewrite app_nil_r, learn_eq. unfold res_of_ref.
+    destruct rf as [h|b']; [|exact HI].
+    destruct (get_block_BH _ _ _ _ _ HI Eg) as (b' & v & Hv). cbn [ref_obj].
+    apply inv_learn; [exact HI|]. exists v. destruct (oiv_obj_of _ _ _ _ Hv) as [-> _]. exact Hv.
+  - unfold lru_get in HS. destruct (lookup b (s_parsed st)) as [h|] eqn:El.
+    + injection HS as <- <- <-. rewrite app_nil_r, learn_eq. unfold res_of_ref. cbn [ref_obj].
+      pose proof (i_parsed _ _ _ HI _ _ (lookup_In _ _ _ El)) as Hlt.
+      destruct (nthN_lt_some _ _ Hlt) as [o Hn].
+      assert (Hv : oiv st h = Some (o_id (obj_of st h), o_verified o)).
+      { unfold oiv, obj_of. rewrite Hn. reflexivity. }
+      apply inv_learn.
+      * apply inv_set_parsed; [exact HI|]. intros b0 h0 Hin. apply in_app_or in Hin. destruct Hin as [Hin|[[= <- <-]|[]]].
+        -- apply In_remove_key in Hin. exact (i_parsed _ _ _ HI _ _ Hin).
+        -- exact Hlt.
+      * exists (o_verified o). exact Hv.
+    + unfold alloc in HS. injection HS as <- <- <-. rewrite learn_eq.
+      apply inv_learn.
+      * apply inv_event; [|exact I].
+        match goal with |- Inv (set_parsed ?m ?s) _ _ => apply (inv_set_parsed s es tr m) end.
+        -- apply inv_alloc. exact HI.
+        -- cbn [set_objs s_objs s_parsed]. intros b0 h0 Hin. rewrite lenN_app. unfold lru_put in Hin.
+           apply in_app_or in Hin. destruct Hin as [Hin|[[= <- <-]|[]]].
+           ++ apply In_remove_key in Hin.
+              assert (In (b0, h0) (s_parsed st)) as Hin' by (destruct (lenN (s_parsed st) =? c_P c); [apply In_tl|]; exact Hin).
+              pose proof (i_parsed _ _ _ HI _ _ Hin'). lia.
+           ++ unfold lenN. cbn [length]. lia.
+      * exists false. unfold oiv. cbn [set_parsed set_objs s_objs]. rewrite nthN_app_len. reflexivity.
+Qed.
+
+Definition es_add (x : binfo) (es : estate) : estate :=
+  mkE (e_blocks es ++ [x]) (e_hid es) (e_built es) (e_proc es) (e_last es) (e_chain es) (e_acc es)
+      (e_rej es) (e_ver es) (e_pending es) (e_ready es) (e_started es) (e_sync es) (e_pref es).
+
+Lemma e_binfo_add x es b : b < lenN (e_blocks es) -> e_binfo (es_add x es) b = e_binfo es b.
+Proof. intros H. unfold e_binfo, es_add. cbn [e_blocks]. rewrite nthN_app_l by exact H. reflexivity. Qed.
+
+Lemma e_binfo_new x es : e_binfo (es_add x es) (lenN (e_blocks es)) = x.
+Proof. unfold e_binfo, es_add. cbn [e_blocks]. rewrite nthN_app_len. reflexivity. Qed.
+
+Lemma inv_add_block st es tr x :
+  Inv st es tr ->
+  (b_parent x <> lenN (e_blocks es) ->
+   b_parent x < lenN (e_blocks es) /\ b_height x = e_height es (b_parent x) + 1) ->
+  Inv (set_blocks (s_blocks st ++ [x]) st) (es_add x es) tr.
+Proof.
+  intros HI Hx.
+  assert (Hh : forall b, b < lenN (e_blocks es) -> e_height (es_add x es) b = e_height es b).
+  { intros b Hb. unfold e_height. rewrite e_binfo_add by exact Hb. reflexivity. }
+  assert (Hp : forall b, b < lenN (e_blocks es) -> e_parent (es_add x es) b = e_parent es b).
+  { intros b Hb. unfold e_parent. rewrite e_binfo_add by exact Hb. reflexivity. }
+  assert (Hc := i_chain_lt _ _ _ HI).
+  constructor; try (old HI); cbn [set_blocks s_blocks];
+    try (unfold es_add at 1; cbn [e_blocks e_chain e_proc e_acc e_last e_rej e_built e_hid]).
+  - rewrite (i_blocks _ _ _ HI). reflexivity.
+  - intros b Hb Hne. unfold es_add in Hb. cbn [e_blocks] in Hb. rewrite lenN_app in Hb.
+    destruct (N.lt_ge_cases b (lenN (e_blocks es))) as [Hlt|Hge].
+    + rewrite Hp in * by exact Hlt. destruct (i_tree _ _ _ HI _ Hlt Hne) as [A B].
+      split; [exact A|]. rewrite !Hh by lia. exact B.
+    + assert (b = lenN (e_blocks es)) as -> by (unfold lenN in *; cbn [length] in *; lia).
+      unfold e_parent, e_height in *. rewrite e_binfo_new in *. destruct (Hx Hne) as [A B].
+      split; [exact A|]. rewrite e_binfo_add by exact A. exact B.
+  - intros b h H0. destruct (i_procobj _ _ _ HI _ _ H0) as (A & B & C & D). repeat split; auto.
+    unfold es_add. cbn [e_blocks]. rewrite lenN_app. lia.
+  - intros k b H0. destruct (i_acch _ _ _ HI _ _ H0) as [A B]. split; [exact A|]. rewrite Hh by (apply Hc; exact A). exact B.
+  - intros b Hin. rewrite Hh by (apply Hc; exact Hin). exact (i_disk _ _ _ HI _ Hin).
+  - intros b b' H1 H2. rewrite !Hh by (apply Hc; assumption). exact (i_hinj _ _ _ HI _ _ H1 H2).
+  - intros b Hin. rewrite !Hh by (apply Hc; first [exact Hin | apply (i_last _ _ _ HI)]). exact (i_hmax _ _ _ HI _ Hin).
+  - intros b Hin. unfold es_add. cbn [e_blocks]. rewrite lenN_app. pose proof (Hc _ Hin). lia.
+  - intros b Hin Hnz. rewrite Hp by (apply Hc; exact Hin). exact (i_chain_parent _ _ _ HI _ Hin Hnz).
+  - rewrite <- (i_acc_chain _ _ _ HI). symmetry. apply (chain_from_ext es (es_add x es) (lenN (e_blocks es))).
+    + intros b Hin. apply Hc. exact (i_acc_in _ _ _ HI _ Hin).
+    + intros b Hb. symmetry. apply e_binfo_add. exact Hb.
+    + apply Hc. exact (i_zero _ _ _ HI).
+  - rewrite <- (i_vp _ _ _ HI). symmetry. apply (vp_ext es (es_add x es) (lenN (e_blocks es))).
+    + exact (i_trlt _ _ _ HI).
+    + intros b Hb. symmetry. apply e_binfo_add. exact Hb.
+  - apply (tr_lt_mono (lenN (e_blocks es))); [|exact (i_trlt _ _ _ HI)]. unfold es_add. cbn [e_blocks]. rewrite lenN_app. lia.
+Qed.
+
+Lemma new_binfo_tree es p inv :
+  b_parent (new_binfo (e_blocks es) p inv) <> lenN (e_blocks es) ->
+  b_parent (new_binfo (e_blocks es) p inv) < lenN (e_blocks es) /\
+  b_height (new_binfo (e_blocks es) p inv) = e_height es (b_parent (new_binfo (e_blocks es) p inv)) + 1.
+Proof.
+  unfold new_binfo. destruct (nthN (e_blocks es) p) as [i|] eqn:E; cbn [b_parent b_height].
+  - intros _. split; [eapply nthN_some_lt; eauto|]. unfold e_height, e_binfo. rewrite E. reflexivity.
+  - congruence.
+Qed.
+
+Lemma inv_parse_new c st es tr p inv st' r evs :
+  Inv st es tr -> step c st (OParseNew p inv) = (st', r, evs) ->
+  Inv st' (eupd es (OParseNew p inv) r evs) (tr ++ evs).
+Proof.
+  intros HI HS. cbn [step] in HS. cbn [eupd].
+  rewrite (i_blocks _ _ _ HI) in HS.
+  pose proof (inv_add_block _ _ _ (new_binfo (e_blocks es) p inv) HI (new_binfo_tree es p inv)) as HI2.
+  rewrite (i_blocks _ _ _ HI) in HI2.
+  exact (inv_do_parse _ _ _ _ _ _ _ _ HI2 HS).
+Qed.
+
+Lemma inv_parse c st es tr b st' r evs :
+  Inv st es tr -> step c st (OParse b) = (st', r, evs) ->
+  Inv st' (eupd es (OParse b) r evs) (tr ++ evs).
+Proof. intros HI HS. cbn [step] in HS. cbn [eupd]. exact (inv_do_parse _ _ _ _ _ _ _ _ HI HS). Qed.
+
+Definition es_built (h : N) (es : estate) : estate :=
+  mkE (e_blocks es) (e_hid es) (h :: e_built es) (e_proc es) (e_last es) (e_chain es) (e_acc es)
+      (e_rej es) (e_ver es) (e_pending es) (e_ready es) (e_started es) (e_sync es) (e_pref es).
+
+Lemma inv_alloc_built st es tr p b :
+  Inv st es tr -> b < lenN (e_blocks es) -> e_parent es b = p -> In p (outs_after [0] tr) ->
+  Inv (set_objs (s_objs st ++ [mkO b true false]) st) (es_built (lenN (s_objs st)) es) (tr ++ [EBuild p b]).
+Proof.
+  intros HI Hb Hp Hout. set (o := mkO b true false). unfold es_built.
+  assert (Hq : forall x, In x (s_queue st) -> obj_of (set_objs (s_objs st ++ [o]) st) x = obj_of st x).
+  { intros x Hx. apply obj_of_alloc_old. apply obj_of_nonzero_lt. apply (i_queue_chain _ _ _ HI _ Hx). }
+  constructor; try (old HI); cbn [set_objs s_last s_acc_id s_parsed s_queue s_objs e_acc e_built e_proc e_chain e_rej e_blocks].
+  - intros h0 b0 H0. destruct (i_hid _ _ _ HI _ _ H0) as [v Hv]. exists v. apply oiv_alloc_old. exact Hv.
+  - intros b0 h0 H0. destruct (i_procobj _ _ _ HI _ _ H0) as (A & B & C & D). repeat split; auto. apply oiv_alloc_old. exact A.
+  - destruct (i_last _ _ _ HI) as (A & B & C). repeat split; auto. apply (oiv_alloc_old st o _ _ A).
+  - intros b0 h0 H0. destruct (i_accid _ _ _ HI _ _ H0) as [[v Hv] B]. split; [exists v; apply oiv_alloc_old; exact Hv | exact B].
+  - intros b0 h0 H0. rewrite lenN_app. pose proof (i_parsed _ _ _ HI _ _ H0). lia.
+  - rewrite accepts_app. cbn [accepts flat_map]. rewrite app_nil_r, (i_queue _ _ _ HI). f_equal.
+    apply map_ext_in. intros x Hx. rewrite (Hq _ Hx). reflexivity.
+  - intros h0 H0. rewrite (Hq _ H0). exact (i_queue_chain _ _ _ HI _ H0).
+  - erewrite chain_from_blocks; [exact (i_acc_chain _ _ _ HI) | reflexivity].
+  - rewrite naccepted_app, accepts_app. cbn. rewrite !app_nil_r. exact (i_nacc _ _ _ HI).
+  - rewrite nrejected_app. cbn. rewrite app_nil_r. exact (i_nrej _ _ _ HI).
+  - rewrite nverified_app. cbn. rewrite app_nil_r. exact (i_nver _ _ _ HI).
+  - rewrite npreaccepted_app, (i_npre1 _ _ _ HI). reflexivity.
+  - rewrite nprerejected_app, (i_npre2 _ _ _ HI). reflexivity.
+  - rewrite vp_app. erewrite vp_blocks; [rewrite (i_vp _ _ _ HI)|reflexivity].
+    cbn [verify_parents_ok andb]. fold_es es. rewrite Hp, N.eqb_refl.
+    apply memN_In in Hout. rewrite Hout. reflexivity.
+  - intros h0 b0 H0. rewrite outs_after_app. apply oiv_alloc_inv in H0. destruct H0 as [H0|[_ H0]].
+    + apply outs_after_mono. exact (i_outs _ _ _ HI _ _ H0).
+    + cbn [o o_id o_verified] in H0. injection H0 as <-. cbn. left. reflexivity.
+  - apply Forall_app. split; [exact (i_trlt _ _ _ HI) | repeat constructor; exact Hb].
+  - intros h0 b0 H0. apply oiv_alloc_inv in H0. destruct H0 as [H0|[-> _]].
+    + destruct (i_unv _ _ _ HI _ _ H0) as [A|A]; [left; right; exact A | right; exact A].
+    + left. left. reflexivity.
+  - intros h0 [<-|H0].
+    + exists b. unfold oiv. cbn [s_objs set_objs]. rewrite nthN_app_len. reflexivity.
+    + destruct (i_built _ _ _ HI _ H0) as [b0 Hb0]. exists b0. apply oiv_alloc_old. exact Hb0.
+Qed.
+
+Lemma inv_build c Q st es tr st' r evs :
+  Inv st es tr -> eguard Q es OBuild = true -> step c st OBuild = (st', r, evs) ->
+  Inv st' (eupd es OBuild r evs) (tr ++ evs).
+Proof.
+  intros HI HG HS. cbn [eguard] in HG. apply andb_true_iff in HG. destruct HG as [_ HG].
+  destruct (get_block_live _ _ _ (e_pref es) HI HG) as (hp & Hg & Hop).
+  cbn [step] in HS. rewrite (i_pref _ _ _ HI), Hg in HS. cbn [ref_obj] in HS.
+  destruct (oiv_obj_of _ _ _ _ Hop) as [Hpid Hpv]. rewrite Hpv, Hpid in HS.
+  set (p := e_pref es) in *.
+  assert (Hplt : p < lenN (e_blocks es)).
+  { apply orb_true_iff in HG. destruct HG as [HG|HG].
+    - apply hasK_lookup in HG. destruct HG as [hh Hh]. apply (i_procobj _ _ _ HI _ _ Hh).
+    - apply N.eqb_eq in HG. rewrite HG. apply (i_chain_lt _ _ _ HI). apply (i_last _ _ _ HI). }
+  rewrite (height_eq _ _ _ p HI), (i_blocks _ _ _ HI) in HS.
+  unfold alloc in HS. cbn [set_blocks s_objs s_parsed s_blocks] in HS.
+  injection HS as <- <- <-. cbn [eupd].
+  set (x := mkB p (e_height es p + 1) false).
+  set (b := lenN (e_blocks es)).
+  set (h := lenN (s_objs st)).
+  assert (HI2 : Inv (set_blocks (s_blocks st ++ [x]) st) (es_add x es) tr).
+  { apply inv_add_block; [exact HI|]. intros _. cbn [x b_parent b_height]. split; [exact Hplt | reflexivity]. }
+  rewrite (i_blocks _ _ _ HI) in HI2.
+  rewrite learn_eq.
+  change (Inv (set_parsed (lru_put (c_P c) b h (s_parsed st))
+                (set_objs (s_objs (set_blocks (e_blocks es ++ [x]) st) ++ [mkO b true false]) (set_blocks (e_blocks es ++ [x]) st)))
+              (es_learn h b (es_built (lenN (s_objs (set_blocks (e_blocks es ++ [x]) st))) (es_add x es))) (tr ++ [EBuild p b])).
+  apply inv_learn.
+  - apply inv_set_parsed.
+    + apply inv_alloc_built; [exact HI2 | | | ].
+      * unfold es_add. cbn [e_blocks]. rewrite lenN_app. unfold b, lenN. cbn [length]. lia.
+      * unfold e_parent. unfold b. rewrite e_binfo_new. reflexivity.
+      * exact (i_outs _ _ _ HI _ _ Hop).
+    + cbn [set_objs s_objs set_blocks]. intros b0 h0 Hin. rewrite lenN_app. unfold lru_put in Hin.
+      apply in_app_or in Hin. destruct Hin as [Hin|[[= <- <-]|[]]].
+      * apply In_remove_key in Hin.
+        assert (In (b0, h0) (s_parsed st)) as Hin' by (destruct (lenN (s_parsed st) =? c_P c); [apply In_tl|]; exact Hin).
+        pose proof (i_parsed _ _ _ HI _ _ Hin'). lia.
+      * unfold h, lenN. cbn [length]. lia.
+  - exists true. unfold oiv. cbn [set_parsed set_objs s_objs set_blocks]. unfold h. rewrite nthN_app_len. reflexivity.
+Qed.
+
+
+(* ------------------------------------------------------------------ all steps, all runs *)
+Definition sync_op (o : op) : bool := match o with OStartSync _ | OFinishSync _ => true | _ => false end.
+
+Lemma inv_step c Q st es tr o st' r evs :
+  1 <= c_W c -> Inv st es tr -> sync_op o = false -> eguard Q es o = true ->
+  step c st o = (st', r, evs) -> Inv st' (eupd es o r evs) (tr ++ evs).
+Proof.
+  intros HW HI Hs HG HS.
+  destruct o; try discriminate Hs.
+  - eapply inv_parse_new; eauto.
+  - eapply inv_parse; eauto.
+  - eapply inv_build; eauto.
+  - eapply inv_verify; eauto.
+  - eapply inv_accept; eauto.
+  - eapply inv_reject; eauto.
+  - cbn [step] in HS. injection HS as <- <- <-. rewrite app_nil_r. apply inv_setpref. exact HI.
+  - eapply inv_process; eauto.
+  - destruct (step_read c st (OGetBlock b) eq_refl) as [r0 E]. rewrite E in HS. injection HS as <- <- <-. rewrite app_nil_r. exact HI.
+  - destruct (step_read c st (OGetIDAtHeight k) eq_refl) as [r0 E]. rewrite E in HS. injection HS as <- <- <-. rewrite app_nil_r. exact HI.
+  - destruct (step_read c st (OGetByHeight k) eq_refl) as [r0 E]. rewrite E in HS. injection HS as <- <- <-. rewrite app_nil_r. exact HI.
+  - destruct (step_read c st OLastAccepted eq_refl) as [r0 E]. rewrite E in HS. injection HS as <- <- <-. rewrite app_nil_r. exact HI.
+  - destruct (step_read c st OGetLastProcessed eq_refl) as [r0 E]. rewrite E in HS. injection HS as <- <- <-. rewrite app_nil_r. exact HI.
+  - destruct (step_read c st OGetPreferred eq_refl) as [r0 E]. rewrite E in HS. injection HS as <- <- <-. rewrite app_nil_r. exact HI.
+  - destruct (step_read c st OHealth eq_refl) as [r0 E]. rewrite E in HS. injection HS as <- <- <-. rewrite app_nil_r. exact HI.
+Qed.
+
+Lemma no_sync_cons o ops : no_sync (o :: ops) = true -> sync_op o = false /\ no_sync ops = true.
+Proof.
+  unfold no_sync. cbn [forallb]. rewrite andb_true_iff. intros [A B]. split; [|exact B].
+  destruct o; cbn [sync_op]; try reflexivity; discriminate.
+Qed.
+
+Lemma inv_erun c Q ops : 1 <= c_W c -> no_sync ops = true ->
+  forall st es tr st' es' tr', Inv st es tr -> erun c Q st es ops = Some (st', es', tr') -> Inv st' es' (tr ++ tr').
+Proof.
+  intros HW. induction ops as [|o r IH]; intros Hns st es tr st' es' tr' HI HR.
+  - cbn [erun] in HR. injection HR as <- <- <-. rewrite app_nil_r. exact HI.
+  - apply no_sync_cons in Hns. destruct Hns as [Hs Hns].
+    cbn [erun] in HR. destruct (eguard Q es o) eqn:HG; [|discriminate].
+    destruct (step c st o) as [[st1 rs] evs] eqn:HS.
+    destruct (erun c Q st1 (eupd es o rs evs) r) as [[[st2 es2] evss]|] eqn:HR2; [|discriminate].
+    injection HR as <- <- <-. rewrite app_assoc.
+    eapply IH; [exact Hns | | exact HR2].
+    eapply inv_step; eauto.
+Qed.
+
+(* ------------------------------------------------------------------ the C20 predicates from the invariant *)
+Lemma nodupb_NoDup l : NoDup l -> nodupb l = true.
+Proof.
+  induction 1 as [|x r Hx Hr IH]; cbn [nodupb]; [reflexivity|].
+  rewrite IH, andb_true_r. apply negb_true_iff. apply memN_false. exact Hx.
+Qed.
+
+Lemma firstn_length_app {A} (a b : list A) : firstn (length a) (a ++ b) = a.
+Proof. induction a as [|x a IH]; cbn [length firstn app]; [destruct b; reflexivity|]. rewrite IH. reflexivity. Qed.
+
+Lemma inv_lifecycle st es tr : Inv st es tr -> lifecycle_b tr es = true.
+Proof.
+  intros HI. unfold lifecycle_b.
+  rewrite (i_vp _ _ _ HI), (i_acc_chain _ _ _ HI), (nodupb_NoDup _ (i_acc_nodup _ _ _ HI)).
+  rewrite (i_nacc _ _ _ HI), (i_nrej _ _ _ HI), (i_nver _ _ _ HI), (i_npre1 _ _ _ HI), (i_npre2 _ _ _ HI).
+  rewrite !eqb_listN_refl.
+  assert (H1 : eqb_listN (accepts tr) (firstn (length (accepts tr)) (e_acc es)) = true).
+  { rewrite (i_queue _ _ _ HI) at 2. rewrite firstn_length_app. apply eqb_listN_refl. }
+  assert (H2 : (N.of_nat (length (accepts tr)) + e_pending es =? N.of_nat (length (e_acc es))) = true).
+  { apply N.eqb_eq. rewrite (i_queue _ _ _ HI) at 2. rewrite app_length, map_length, <- (i_pending _ _ _ HI). unfold lenN. lia. }
+  assert (H3 : forallb (fun b => negb (memN b (e_rej es))) (e_acc es) = true).
+  { apply forallb_forall. intros b Hb. apply negb_true_iff. apply memN_false.
+    apply (i_chain_rej _ _ _ HI). exact (i_acc_in _ _ _ HI _ Hb). }
+  rewrite H1, H2, H3. reflexivity.
+Qed.
